@@ -12,9 +12,11 @@ package engine
 //	depth d   for every plan P of depth d-1 with observed journal J(P): every
 //	          k > max(P), k < len(J(P)), every error kind for the method at
 //	          J(P)[k]  ->  plan P+{k,kind}          (d = 1 .. Depth)
-//	methods   every method name seen in ANY journal of the flow, every kind:
-//	          "all calls of M fail" (MethodSets>=1); all unordered pairs of such
-//	          methods (MethodSets>=2); worklist until no new method shows up
+//	methods   every method name seen in ANY journal of the flow, every kind of
+//	          that method: "all calls of M fail with kind K" - the plan that fails
+//	          the SAME method again however often the handler retries it
+//	          (MethodSets>=1); all unordered pairs of such methods, every kind of
+//	          either (MethodSets>=2); worklist until no new method shows up
 //
 // The journal is dynamic: a fault at k may shorten or change everything after k,
 // so successors of P are enumerated over the journal observed in the run of P
@@ -316,7 +318,13 @@ func (c *Check) e4Flow(e *E4, flow string, run func(E4Plan) E4Obs, rep *E4Report
 						}
 						done2[key] = true
 						changed = true
-						kinds := e.Kinds(m1)
+						// every kind either method may fail with (union, order of first mention)
+						kinds := slices.Clone(e.Kinds(m1))
+						for _, k := range e.Kinds(m2) {
+							if !slices.Contains(kinds, k) {
+								kinds = append(kinds, k)
+							}
+						}
 						for _, kind := range kinds {
 							exec(E4Plan{Flow: flow, Methods: []string{m1, m2}, Kind: kind}, nil)
 						}
